@@ -73,7 +73,14 @@ def build_inputs(tier):
         files.append(("invalid-table-crlf", mutate.crlf("a = 'é'\n" + s)))
     files += [("multiline-string", "s = '''a\nb\nc''' 3\n"), ("multiline-string", "x = ('''é\nb''' +\n 1) 2\n"), ("endmarker-error", "@dec\n"), ("endmarker-error", "if x:\n"), ("blank-in-brackets", "x = (1 +\n\n\n 2) 3\n")]
     seen = set()
-    return [f for f in files if "\r" not in f[1].replace("\r\n", "") and not (f[1] in seen or seen.add(f[1]))]
+    def encodable(t):
+        try:
+            t.encode("utf-8")
+            return True
+        except UnicodeEncodeError:
+            return False  # a lone surrogate cannot be the content of a UTF-8 file
+
+    return [f for f in files if encodable(f[1]) and "\r" not in f[1].replace("\r\n", "") and not (f[1] in seen or seen.add(f[1]))]
 
 
 def compare(a, b):
